@@ -265,7 +265,7 @@ def rule_gate(run, F, cfg):
     for kind, b, val, conds, _ in _cd(rd, 0):
         if "Result::Ok" in val:
             for e, v in conds.items():
-                m_ = re.search(r"Iterator>::any\(core::slice::iter\((arg:\w+)\), closure\[", e)
+                m_ = re.search(r"Iterator>::(?:any|find|position)\(core::slice::iter\((arg:\w+)\), closure\[", e)
                 if m_ and v == 1:
                     early.append(m_.group(1))
     seen_param = early[0] if len(set(early)) == 1 else None
